@@ -28,10 +28,12 @@ COMPRESSOR_NAME = {"zlib": "vtkZLibDataCompressor", "lz4": "vtkLZ4DataCompressor
 
 class Cfg:
     def __init__(self, fmt="ascii", compressor=None, block_size=32768, header_type="UInt32", byte_order="<",
-                 header_separate=False):
+                 header_separate=False, version="1.0", omit_header_type=False):
         assert fmt in ("ascii", "binary", "appended-base64", "appended-raw")
         self.fmt, self.compressor, self.block_size = fmt, compressor, block_size
         self.header_type, self.byte_order, self.header_separate = header_type, byte_order, header_separate
+        # the VTKFile attributes: `version` is free; header_type may be left out, which means UInt32 (the format's default)
+        self.version, self.omit_header_type = version, bool(omit_header_type) and header_type == "UInt32"
 
     def key(self):
         return (f"{self.fmt}/{self.compressor}/bs{self.block_size}/{self.header_type}/"
@@ -39,7 +41,8 @@ class Cfg:
 
     def as_dict(self):
         return dict(fmt=self.fmt, compressor=self.compressor, block_size=self.block_size, header_type=self.header_type,
-                    byte_order=self.byte_order, header_separate=self.header_separate)
+                    byte_order=self.byte_order, header_separate=self.header_separate, version=self.version,
+                    omit_header_type=self.omit_header_type)
 
 
 def raw_bytes(vtk_type, values, byte_order):
@@ -121,8 +124,9 @@ class Writer:
 
     def file_attrs(self, vtk_type_name):
         cfg = self.cfg
-        s = (f'type="{vtk_type_name}" version="1.0" byte_order="{"LittleEndian" if cfg.byte_order == "<" else "BigEndian"}" '
-             f'header_type="{cfg.header_type}"')
+        s = f'type="{vtk_type_name}" version="{cfg.version}" byte_order="{"LittleEndian" if cfg.byte_order == "<" else "BigEndian"}"'
+        if not cfg.omit_header_type:
+            s += f' header_type="{cfg.header_type}"'
         if cfg.compressor:
             s += f' compressor="{COMPRESSOR_NAME[cfg.compressor]}"'
         return s
